@@ -14,13 +14,6 @@ Proof.
   cbn [skipn]. rewrite Nat.sub_0_r. reflexivity.
 Qed.
 
-Lemma gen_calc_srv_value_model : forall H, HashLen H -> forall pk,
-  gen_calc_srv_value H pk = Ok (calc_srv_value H pk).
-Proof.
-  intros H HL pk. unfold gen_calc_srv_value, calc_srv_value. cbn [app].
-  change 32 with (N.of_nat 32). rewrite cm_slice_prefix by (rewrite HL; lia). reflexivity.
-Qed.
-
 Lemma gen_finalize_model : forall v d,
   ok_opt (gen_finalize_output v d) = ok_opt (finalize v d).
 Proof.
